@@ -224,4 +224,13 @@ BackwardCfg(cfg, due) ==
                             [cfg.workers[w] EXCEPT !.skill = @ \o [j \in 1..Len(need) |-> -1]]],
              !.facs = [f \in Facs(cfg) |->
                             [cfg.facs[f] EXCEPT !.skill = @ \o [j \in 1..Len(need) |-> -1]]]]
+\* backward_simulate(...) on a freshly built project, as a function: the forward run of the
+\* reversed model (helper tasks for due times appended), the logs of the helper tasks dropped with
+\* the helpers, and - with reverse_log_information - every log turned round
+BackwardF(cfg, opts, due, reverse) ==
+  LET n  == Len(cfg.tasks)
+      r  == SimulateF(BackwardCfg(cfg, due), opts)
+      lg == [r.lg EXCEPT !.ts = SubSeq(@, 1, n), !.rem = SubSeq(@, 1, n),
+                         !.aw = SubSeq(@, 1, n), !.af = SubSeq(@, 1, n), !.mode = "BACKWARD"]
+  IN IF reverse THEN ReverseLogsF(lg) ELSE lg
 =============================================================================
